@@ -19,6 +19,8 @@ import (
 	"context"
 	"encoding/json"
 	"fmt"
+	"github.com/golang/protobuf/ptypes/wrappers"
+	"mosn.io/api"
 	"sort"
 	"strings"
 	"sync"
@@ -45,16 +47,56 @@ func init() {
 
 type c12Model struct {
 	routers  map[string]*v2.RouterConfiguration // by name
-	clusters map[string][]string                // cluster -> sorted host addresses
+	clusters map[string][]string                // cluster -> sorted host descriptors "addr w=<weight> md=<sorted k=v>"
 }
 
-func c12Hosts(addrs ...string) []v2.Host {
+// c12Hosts builds hosts from descriptors "addr w=<weight> md=<k=v,...>" (c12Desc).
+func c12Hosts(descs ...string) []v2.Host {
 	var hs []v2.Host
-	for _, a := range addrs {
-		hs = append(hs, v2.Host{HostConfig: v2.HostConfig{Address: a, Weight: 1}})
+	for _, d := range descs {
+		f := strings.Fields(d)
+		h := v2.Host{HostConfig: v2.HostConfig{Address: f[0], Weight: 1}}
+		for _, x := range f[1:] {
+			switch {
+			case strings.HasPrefix(x, "w="):
+				var w uint32
+				fmt.Sscan(x[2:], &w)
+				h.Weight = w
+			case strings.HasPrefix(x, "md=") && len(x) > 3:
+				h.MetaData = api.Metadata{}
+				for _, kv := range strings.Split(x[3:], ",") {
+					p := strings.SplitN(kv, "=", 2)
+					h.MetaData[p[0]] = p[1]
+				}
+			}
+		}
+		hs = append(hs, h)
 	}
 	return hs
 }
+
+func c12Desc(addr string, weight uint32, md map[string]string) string {
+	var kv []string
+	for k, v := range md {
+		kv = append(kv, k+"="+v)
+	}
+	sort.Strings(kv)
+	return fmt.Sprintf("%s w=%d md=%s", addr, weight, strings.Join(kv, ","))
+}
+
+// c12GenDesc: an address with a PRNG-chosen weight and metadata.
+func c12GenDesc(rng *lab.Rand, addr string) string {
+	md := map[string]string{}
+	if v := rng.PickStr("", "v1", "v2"); v != "" {
+		md["version"] = v
+	}
+	if rng.Intn(4) == 0 {
+		md["zone"] = rng.PickStr("a", "b")
+	}
+	return c12Desc(addr, uint32(rng.PickInt(1, 1, 2, 5)), md)
+}
+
+func c12AddrOf(desc string) string { return strings.Fields(desc)[0] }
 
 func c12DeepCopy(rc *v2.RouterConfiguration) *v2.RouterConfiguration {
 	b, _ := json.Marshal(rc)
@@ -126,7 +168,7 @@ func c12ExactDomain(rng *lab.Rand, m *v2.RouterConfiguration) string {
 }
 
 func c12Updates(c *lab.Ctx) {
-	c.Rule("running MOSN; histories of 1..30 runtime updates over {router add/update, add route, remove all routes, cluster add/update/delete, host replace/append/delete, multi-locality xDS endpoint assignment, invalid and no-op updates} through the real manager entry points; after every step live == fresh-from-dump == reference state over a probe set; distinct = operation sequences (hashed) and (operation kind, outcome)")
+	c.Rule("running MOSN; histories of 1..30 runtime updates over {router add/update, add route, remove all routes, cluster add/update/delete, host replace/append/delete (hosts carry weights and metadata; one third of the replacements change only the weight or metadata of one host), multi-locality xDS endpoint assignment, invalid and no-op updates} through the real manager entry points; after every step live == fresh-from-dump == reference state over a probe set; distinct = operation sequences (hashed) and (operation kind, outcome)")
 	e, err := newEngine(c, []string{"Http1"}, func(string) []routeSpec {
 		return []routeSpec{{Key: "base", Cluster: "cl-$P", Extra: jmap{"timeout": "1s"}}}
 	}, nil, nil)
@@ -239,8 +281,20 @@ func c12Updates(c *lab.Ctx) {
 			case 7, 8: // replace hosts
 				name := clusterNames[hrng.Intn(len(clusterNames))]
 				var addrs []string
-				for _, i := range hrng.Perm(len(addrPool))[:hrng.Intn(4)] {
-					addrs = append(addrs, addrPool[i])
+				if cur := model.clusters[name]; len(cur) > 0 && hrng.Intn(3) == 0 {
+					// same hosts in the same order, only the weight / metadata of one of them changes
+					addrs = append(addrs, cur...)
+					k := hrng.Intn(len(addrs))
+					for try := 0; try < 8; try++ {
+						if nd := c12GenDesc(hrng, c12AddrOf(addrs[k])); nd != addrs[k] {
+							addrs[k] = nd
+							break
+						}
+					}
+				} else {
+					for _, i := range hrng.Perm(len(addrPool))[:hrng.Intn(4)] {
+						addrs = append(addrs, c12GenDesc(hrng, addrPool[i]))
+					}
 				}
 				err := ca.TriggerClusterHostUpdate(name, c12Hosts(addrs...))
 				desc = fmt.Sprintf("hosts-replace(%s,%v,err=%v)", name, addrs, err != nil)
@@ -249,19 +303,18 @@ func c12Updates(c *lab.Ctx) {
 				}
 			case 9: // append hosts
 				name := clusterNames[hrng.Intn(len(clusterNames))]
-				a := addrPool[hrng.Intn(len(addrPool))]
+				a := c12GenDesc(hrng, addrPool[hrng.Intn(len(addrPool))])
 				err := ca.TriggerHostAppend(name, c12Hosts(a))
 				desc = fmt.Sprintf("hosts-append(%s,%s,err=%v)", name, a, err != nil)
 				if cur, ok := model.clusters[name]; ok && err == nil {
-					found := false
+					// appending an address that is already a member replaces that member (last update wins)
+					var nx []string
 					for _, x := range cur {
-						if x == a {
-							found = true
+						if c12AddrOf(x) != c12AddrOf(a) {
+							nx = append(nx, x)
 						}
 					}
-					if !found {
-						model.clusters[name] = sortedCopy(append(cur, a))
-					}
+					model.clusters[name] = sortedCopy(append(nx, a))
 				}
 			case 10: // delete hosts
 				name := clusterNames[hrng.Intn(len(clusterNames))]
@@ -271,7 +324,7 @@ func c12Updates(c *lab.Ctx) {
 				if cur, ok := model.clusters[name]; ok && err == nil {
 					var nx []string
 					for _, x := range cur {
-						if x != a {
+						if c12AddrOf(x) != a {
 							nx = append(nx, x)
 						}
 					}
@@ -289,9 +342,20 @@ func c12Updates(c *lab.Ctx) {
 					for k := 1 + hrng.Intn(2); k > 0 && pi < len(perm); k-- {
 						a := addrPool[perm[pi]]
 						pi++
-						all = append(all, a)
+						// no weight: stored as "unset" (0); 0 < weight is clamped into MOSN's range 1..128
+						xw := hrng.PickInt(-1, -1, 1, 3, 200)
+						var lbw *wrappers.UInt32Value
+						mw := uint32(0)
+						if xw >= 0 {
+							lbw = &wrappers.UInt32Value{Value: uint32(xw)}
+							mw = uint32(xw)
+							if mw > 128 {
+								mw = 128
+							}
+						}
+						all = append(all, c12Desc(a, mw, nil))
 						hp := strings.Split(a, ":")
-						loc.LbEndpoints = append(loc.LbEndpoints, &envoy_endpoint.LbEndpoint{HostIdentifier: &envoy_endpoint.LbEndpoint_Endpoint{Endpoint: &envoy_endpoint.Endpoint{
+						loc.LbEndpoints = append(loc.LbEndpoints, &envoy_endpoint.LbEndpoint{LoadBalancingWeight: lbw, HostIdentifier: &envoy_endpoint.LbEndpoint_Endpoint{Endpoint: &envoy_endpoint.Endpoint{
 							Address: &envoy_core.Address{Address: &envoy_core.Address_SocketAddress{SocketAddress: &envoy_core.SocketAddress{Address: hp[0], PortSpecifier: &envoy_core.SocketAddress_PortValue{PortValue: 80}}}}}}})
 					}
 					cla.Endpoints = append(cla.Endpoints, loc)
@@ -402,7 +466,7 @@ func c12Compare(c *lab.Ctx, model *c12Model, routerNames, clusterNames []string,
 	for _, cl := range dumped.ClusterManager.Clusters {
 		var hs []string
 		for _, h := range cl.Hosts {
-			hs = append(hs, h.Address)
+			hs = append(hs, c12Desc(h.Address, h.Weight, h.MetaData))
 		}
 		dumpClusters[cl.Name] = sortedCopy(hs)
 	}
@@ -416,7 +480,7 @@ func c12Compare(c *lab.Ctx, model *c12Model, routerNames, clusterNames []string,
 		var live []string
 		if liveExists {
 			snap.HostSet().Range(func(h types.Host) bool {
-				live = append(live, h.AddressString())
+				live = append(live, c12Desc(h.AddressString(), h.Weight(), h.Metadata()))
 				return true
 			})
 			live = sortedCopy(live)
